@@ -128,6 +128,78 @@ for _n in CONDS:
 for _n in ACBS:
     setattr(RecMixin, _n, _mk_acb(_n))
 
+# cross-model re-entrant triggers: a callback of a running event on one model fires an event on ANOTHER model
+# (attribute `peer`, pickled along) and then one on its own model; what it gets back and the states it sees are
+# recorded.  Nesting is bounded by a process-global depth (deterministic per top-level call).
+POKE_DEPTH = [0]
+POKE_BUDGET = [0]    # pokes left for the current top-level history item (queued machines run deferred events at depth 0)
+POKES = [0]          # number of pokes that actually fired (the Lean model has no re-entrancy: such steps are not sent)
+POKE, APOKE = 'poke', 'apoke'
+
+
+def _poke_targets(self):
+    d = self.__dict__
+    peer = d.get('peer')
+    if peer is None or POKE_DEPTH[0] >= 2 or POKE_BUDGET[0] <= 0:
+        return None
+    POKE_BUDGET[0] -= 1
+    return peer, d.get('poke_ev', 'e0'), d.get('self_ev', 'e0')
+
+
+def _peer_state(peer):
+    pd = peer.__dict__
+    return canon_state(pd.get(pd.get('attr_name', 'state')))
+
+
+def poke(self, *a, **kw):
+    t = _poke_targets(self)
+    if t is None:
+        self._note(POKE, a, kw, 'skip')
+        return
+    peer, ev, own = t
+    POKE_DEPTH[0] += 1
+    POKES[0] += 1
+    out = []
+    try:
+        for target, name in ((peer, ev), (self, own)):
+            try:
+                r = getattr(target, name)(7, k=1)
+                if inspect.isawaitable(r):      # a sync callback cannot await: leave the coroutine unstarted
+                    r.close()
+                    r = 'coroutine'
+                out.append(r if isinstance(r, str) else bool(r))
+            except Exception as e:   # noqa: BLE001
+                out.append(type(e).__name__)
+            out.append(_peer_state(peer))
+            self._note(POKE + ':' + ('peer' if target is peer else 'own'), a, kw, list(out))
+    finally:
+        POKE_DEPTH[0] -= 1
+
+
+async def apoke(self, *a, **kw):
+    t = _poke_targets(self)
+    if t is None:
+        self._note(APOKE, a, kw, 'skip')
+        return
+    peer, ev, own = t
+    POKE_DEPTH[0] += 1
+    POKES[0] += 1
+    out = []
+    try:
+        for target, name in ((peer, ev), (self, own)):
+            try:
+                out.append(bool(await getattr(target, name)(7, k=1)))
+            except Exception as e:   # noqa: BLE001
+                out.append(type(e).__name__)
+            out.append(_peer_state(peer))
+            self._note(APOKE + ':' + ('peer' if target is peer else 'own'), a, kw, list(out))
+    finally:
+        POKE_DEPTH[0] -= 1
+
+
+RecMixin.poke = poke
+RecMixin.apoke = apoke
+
 
 class RecModel(RecMixin):
     def __init__(self, tag, sched, attr='state'):
@@ -267,6 +339,7 @@ def gen_case(rng, cls_name, tier):
     specs, paths = gen_states(rng, nested)
     events = ['e%d' % i for i in range(rng.randint(1, 3))]
     cbpool = CBS + (ACBS if asy else []) + (MODFNS if rng.random() < 0.3 else [])
+    poke_p = rng.choice([0.0, 0.0, 0.0, 0.5])      # a quarter of the cases has cross-model re-entrant triggers
     trans = []
     for _ in range(rng.randint(2, 6)):
         t = {'trigger': rng.choice(events), 'source': rng.choice(paths + ['*'] if rng.random() < 0.1 else paths),
@@ -294,11 +367,29 @@ def gen_case(rng, cls_name, tier):
         opts['show_state_attributes'] = rng.random() < 0.3
         opts['show_auto_transitions'] = rng.random() < 0.2
         opts['title'] = rng.choice(['State Machine', 'T'])
+    pk = APOKE if asy else POKE
+    if asy and opts['queued'] == 'model':
+        poke_p = rng.choice([0.0, 0.6, 0.6])         # per-model queues: re-entrancy across models is the point
+    if poke_p:
+        placed = False
+        for t in trans:
+            if rng.random() < poke_p:
+                t.setdefault(rng.choice(['before', 'after']), []).append(pk)
+                placed = True
+        for sp in specs:
+            if rng.random() < poke_p / 2:
+                sp.setdefault('on_enter', []).append(pk)
+                placed = True
+        if not placed:
+            trans[0].setdefault('after', []).append(pk)
     nm = rng.randint(1, 3)
+    if poke_p and rng.random() < 0.8:
+        nm = rng.randint(2, 3)
     models = []
     for i in range(nm):
         kind = 'self' if (i == 0 and rng.random() < 0.3) else 'rec'
-        models.append({'kind': kind, 'sched': {c: [rng.random() < 0.6 for _ in range(rng.randint(1, 3))] for c in CONDS}})
+        models.append({'kind': kind, 'sched': {c: [rng.random() < 0.6 for _ in range(rng.randint(1, 3))] for c in CONDS},
+                       'poke_ev': rng.choice(events), 'self_ev': rng.choice(events)})
     ctx_mode = 'none'
     model_ctx = [0] * nm
     if locked:
@@ -406,6 +497,11 @@ def build(case):
         for i, o in enumerate(objs):
             machine.add_model('self' if o is None else o, model_context=list(mdl_ctx[i]) if mdl_ctx[i] else None)
     models = [machine if o is None else o for o in objs]
+    for i, m in enumerate(models):
+        spec = case['models'][i]
+        m.__dict__['peer'] = models[(i + 1) % len(models)] if len(models) > 1 else None
+        m.__dict__['poke_ev'] = spec.get('poke_ev', 'e0')
+        m.__dict__['self_ev'] = spec.get('self_ev', 'e0')
     return Rig(machine, models, mctx, mdl_ctx)
 
 
@@ -427,6 +523,8 @@ def apply_item(case, rig, item):
     """apply one history item; returns a JSON-able observation"""
     mach = rig.machine
     kind = item[0]
+    POKE_DEPTH[0] = 0
+    POKE_BUDGET[0] = 3
     try:
         if kind == 'trigger':
             m = model_at(rig, item[1])
@@ -453,6 +551,11 @@ def apply_item(case, rig, item):
             if m is None or len(mach.models) <= 1:
                 return ['skip']
             call(mach.remove_model, m)
+            for o in rig.models:     # a removed model is no longer the machine's: nobody pokes it any more
+                if o is not None and o.__dict__.get('peer') is m:
+                    o.__dict__['peer'] = None
+            if m is not None:
+                m.__dict__['peer'] = None
             return ['ret', True]
         if kind == 'add_model':
             if len(rig.models) >= 5:
@@ -550,7 +653,10 @@ def fingerprint(rig):
     mods = []
     names = [e for e in m.events]
     for mod in m.models:
+        peer = mod.__dict__.get('peer')
         d = {'self': mod is m, 'tag': mod.__dict__.get('tag'), 'state': canon_state(getattr(mod, attr, None)),
+             'peer': None if peer is None else peer.__dict__.get('tag'),
+             'poke': [mod.__dict__.get('poke_ev'), mod.__dict__.get('self_ev')],
              'sched': mod.__dict__.get('sched'), 'cnt': dict(mod.__dict__.get('cnt', {}))}
         d['attrs'] = sorted(n for n in set(names + ['may_' + e for e in names] + ['trigger', 'may_trigger', 'get_graph'])
                             if n in mod.__dict__)
@@ -817,9 +923,7 @@ def pickle_copy(case, rigA):
 
 def kind_of(case):
     g, nested, locked, asy = FLAGS[case['cls']]
-    # read off the live class: do the locked hierarchical classes hold the model's own contexts for an event?
-    nctx = 1 if '_locked_method' in get_class('LockedHierarchicalMachine', False).__dict__ else 0
-    return [g, locked, nested, 1 if (asy and case['opts']['queued'] == 'model') else 0, asy, nctx]
+    return [g, locked, nested, 1 if (asy and case['opts']['queued'] == 'model') else 0, asy]
 
 
 def known_signature(case, clause, detail=''):
@@ -880,6 +984,10 @@ def run_case(case, want_requests=True):
                 numb.add(c, numb.by_id[id(o)] + 100)
                 rho.append([numb.by_id[id(o)], numb.by_id[id(o)] + 100])
         tabC0 = tables_of(C, numb, sti)
+        qd = C.machine.__dict__.get('_transition_queue_dict')
+        if isinstance(qd, dict) and len(set(id(v) for v in qd.values())) != len(qd):
+            fail('monitor', 'shared-queue', 'prefix %d: models of the copy share one queue object in '
+                 '_transition_queue_dict (%d models, %d queues)' % (p, len(qd), len(set(id(v) for v in qd.values()))))
         # (c) nothing mutable is shared
         shared = shared_objects(A, C)
         if shared:
@@ -920,7 +1028,10 @@ def run_case(case, want_requests=True):
             MODREC.clear()
             stylesK = graph_styles(K, mk)
             lensK = {id(m): len(m.__dict__.get('rec', [])) for m in K.machine.models}
+            pk0 = POKES[0]
             ok_ = apply_item(case, K, it)
+            poked = POKES[0] != pk0
+            stats['pokes'] = stats.get('pokes', 0) + (POKES[0] - pk0)
             swallowed = any(e[0] == CBX for m in K.machine.models
                             for e in m.__dict__.get('rec', [])[lensK.get(id(m), 0):])
             changedK = stylesK is not None and graph_styles(K, mk) is not stylesK
@@ -948,6 +1059,8 @@ def run_case(case, want_requests=True):
                 fail('monitor', 'contexts-entered', 'prefix %d continuation step %d %r: copy entered %r, control %r'
                      % (p, i, it, entC, entK), known_signature(case, 'contexts-entered'))
             # the table part of this step for the Lean model
+            if poked:
+                lean_ok = False          # re-entrant triggers touched other models' entries: not in the model
             if not lean_ok or oc[0] == 'skip' or it[0] == 'may':
                 continue
             if it[0] == 'trigger' and it[2] not in K.machine.events:
@@ -1051,6 +1164,10 @@ def shared_objects(A, C):
         for k in ('machine_context', 'model_context_map', 'model_graphs', '_transition_queue', '_transition_queue_dict'):
             if k in m.__dict__:
                 add(m.__dict__[k], k)
+        q = m.__dict__.get('_transition_queue_dict')
+        if isinstance(q, dict):
+            for v in q.values():
+                add(v, 'per-model queue')
         for c in m.__dict__.get('machine_context', []):
             add(c, 'machine context')
             if hasattr(c, 'lock'):
@@ -1068,6 +1185,7 @@ def lock_probes(case, A, C, K, p, fail):
     global PROBES_OFF
     if PROBES_OFF:
         return
+    POKE_BUDGET[0] = 0       # probe events run in other threads: no re-entrant pokes there
     la, lc, lk = first_lock(A), first_lock(C), first_lock(K)
     # a lock held on the original never blocks the copy …
     with la:
@@ -1166,7 +1284,7 @@ def work(tier, seed, wid, cls_names, n):
                              ('self_model', str(any(m['kind'] == 'self' for m in case['models']))),
                              ('ctx_mode', case['ctx_mode'])):
                 ex.stats[key][val] = ex.stats[key].get(val, 0) + 1
-            for key in ('snapshots', 'cont_steps', 'moved', 'exceptions', 'lockprobes', 'lean_steps', 'control_mismatch'):
+            for key in ('snapshots', 'cont_steps', 'moved', 'exceptions', 'lockprobes', 'lean_steps', 'control_mismatch', 'pokes'):
                 ex.stats['steps'][key] = ex.stats['steps'].get(key, 0) + st.get(key, 0)
             ex.traces_validated += st['snapshots']
             if st['snapshots'] >= 2 and st['moved'] >= 1:
@@ -1286,7 +1404,7 @@ class C15(runner.Check):
     prop = 'C15'
     level = 'proof'
     strict_correspondence = True
-    theorems = ('TM.C15_rekey', 'TM.C15_queues', 'TM.C15_graphs', 'TM.C15_models', 'TM.C15_tables_full', 'TM.C15_full',
+    theorems = ('TM.C15_rekey', 'TM.C15_queues', 'TM.C15_queues_separate', 'TM.C15_graphs', 'TM.C15_models', 'TM.C15_tables_full', 'TM.C15_full',
                 'TM.C15_behaviour_invariant', 'TM.C15_held_locks_copy', 'TM.C15_held_locks_orig', 'TM.C15_frame')
     manifest = dict(
         level='proof', design='DESIGN.md 4/C15; design_notes/C15.md',
@@ -1313,7 +1431,9 @@ class C15(runner.Check):
     rule = ('random configurations (flat: 2-4 states; hierarchical classes: trees with nested and parallel compounds) x '
             'callbacks by name on module-level recording classes or dotted paths x options (send_event, queued incl. '
             "'model' for async, ignore flags, model_attribute, machine-level callback lists, graph display options) x 1-3 "
-            'models incl. the machine as its own model x history of 0-7 triggers/auto transitions/add_states/'
+            'models incl. the machine as its own model (models know a peer: in a quarter of the cases, and most '
+            "queued='model' cases, callbacks fire events on the OTHER model and on their own model from inside a "
+            'running event, awaited from coroutine callbacks on the async classes) x history of 0-7 triggers/auto transitions/add_states/'
             'add_transition/add_model/remove_model, snapshot by pickle at EVERY prefix, each followed by a random '
             'continuation of 1-6 items on the copy and on a fresh control; all 12 predefined classes in equal shares, '
             '40% through MachineFactory.get_predefined; non-trivial = at least two snapshots and one executed transition '
@@ -1336,7 +1456,7 @@ class C15(runner.Check):
                 'the theorems speak about an abstract transition relation; the engine itself is not re-proved equivariant']
 
     def budget(self, tier):
-        return (16, 12) if tier == "quick" else (32, 25)
+        return (16, 7) if tier == "quick" else (32, 25)
 
     def explore(self, tier, seed):
         workers, n = self.budget(tier)
